@@ -43,7 +43,7 @@ class Contract:
     known: dict[str, str] = field(default_factory=dict)  # ensures-name -> known finding id
     is_async: bool = False
     yields: bool = False  # trusted callee: awaiting it is a yield point
-    uses_invariant: bool = True  # assume class invariant of self at entry
+    uses_invariant: bool = False  # assume class invariant of self at entry; callers on the same object must establish it
     keeps_invariant: bool = False  # prove class invariant of self at exit
     decreases: str | None = None
     note: str = ""
@@ -96,12 +96,13 @@ class Registry:
         self.contracts[qualname] = c
         return c
 
-    def specfn(self, name, params: str, ret: str, body: str, recursive=False, doc=""):
+    def specfn(self, name, params: str, ret: str, body: str | None = None, recursive=False, doc=""):
+        """body=None declares an uninterpreted function (deterministic but unknown)."""
         ps = []
         for p in sorts._split_top(params):
             n, t = p.split(":", 1)
             ps.append((n.strip(), sorts.parse_ty(t)))
-        self.specfns[name] = SpecFn(name, ps, sorts.parse_ty(ret), body.strip(), recursive, doc)
+        self.specfns[name] = SpecFn(name, ps, sorts.parse_ty(ret), body.strip() if body else None, recursive, doc)
 
     def union(self, name, alts: list[str]):
         u = sorts.TUnion(name, [sorts.parse_ty(a) for a in alts])
